@@ -240,7 +240,7 @@ static void addCell(const std::string & name, int dq, int dt) {
 	Unit u; u.name = name; u.minTier = 0;
 	u.run = [=](Ctx & ctx, UnitReport & rep, int tier) {
 		C c(ctx);
-		BfsOptions o; o.maxDepth = tier ? dt : dq;
+		BfsOptions o; o.keyIncludesLastOp = true; o.maxDepth = tier ? dt : dq;
 		Bfs b(ctx, o);
 		b.run([&](Bfs & bb) { c.body(bb); }, [&]() { c.after(); });
 		fillBfsReport(rep, b.res);
